@@ -241,3 +241,77 @@ def check(run: Run) -> None:
 
     c05.check_prepass_protection(run, "R09.7")
     check_bool_before_int(run, "R09.6", [("core.emitter", "emit_value"), ("core.constraints", "TypeConstraint.evaluate"), ("core.constraints", "RangeConstraint.evaluate"), ("core.validator", "Validator._validate_type")])
+    _blank_frontmatter(run)
+
+
+def _blank_frontmatter(run: Run) -> None:
+    """the emitter drops a blank frontmatter block, so the canonical text has none: the validator must judge blank like absent"""
+    run.rule("R09.8", "frontmatter the emitter does not write is judged like no frontmatter: emit() drops a frontmatter block that is None or blank; in validate_frontmatter the path a blank block takes (yaml.safe_load gives None, i.e. not a mapping) either is the `is None` branch (an explicit blank test) or only rebinds the parsed value to an empty mapping - it appends no error of its own and does not return, so the per-field REQUIRED checks run exactly as for an absent block", 2)
+    em = run.project.mod("core.emitter")
+    vm = run.project.mod("core.validator")
+    efi = em.func("emit")
+    drops_blank = any(isinstance(c, ast.Call) and isinstance(c.func, ast.Attribute) and c.func.attr == "strip" and "raw_frontmatter" in ast.unparse(c.func.value) for c in walk_no_nested(efi.node))
+    writes = any(isinstance(c, ast.Attribute) and c.attr == "raw_frontmatter" for c in walk_no_nested(efi.node))
+    if not writes:
+        raise AnalysisError("emit(): raw_frontmatter is not read; the frontmatter clause of C09 is not decided")
+    run.instance("R09.8", em.loc(efi.node), "emit() writes the frontmatter block only when it is not blank" if drops_blank else "emit() writes every non-None frontmatter block", ok=True, nontrivial=False)
+    if not drops_blank:
+        return  # blank blocks survive canonicalisation: both spellings take the same validator path
+    fi = vm.func("validate_frontmatter")
+    cfg = CFG(fi.node)
+    praw = next((a.arg for a in fi.node.args.args if "frontmatter" in a.arg), None)  # type: ignore[attr-defined]
+    if praw is None:
+        raise AnalysisError("validate_frontmatter: frontmatter parameter not found")
+    # an explicit blank test in front of the parse: `raw is None or not raw.strip()` / `not raw` / `not raw.strip()`
+    loads = [n for n in cfg.nodes if n.ast is not None and n.kind == "stmt" and any(isinstance(c, ast.Call) and ast.unparse(c.func).endswith("safe_load") for c in ast.walk(n.ast))]
+    if not loads:
+        raise AnalysisError("validate_frontmatter: yaml.safe_load call not found")
+    blank_routed = False
+    for t, val in branch_conditions(cfg, loads[0].id):
+        txt = ast.unparse(t)
+        if not val and praw in txt and (".strip()" in txt or txt == f"not {praw}"):
+            blank_routed = True
+    if blank_routed:
+        run.instance("R09.8", vm.loc(fi.node), "validate_frontmatter: a blank block is routed away before the YAML parse", ok=True)
+        return
+    tests = [n for n in cfg.nodes if n.kind == "test" and n.ast is not None and "isinstance" in ast.unparse(n.ast) and "dict" in ast.unparse(n.ast)]
+    if not tests:
+        raise AnalysisError("validate_frontmatter: no `isinstance(<parsed>, dict)` test found; which path a blank block takes is not decided")
+    for tn in tests:
+        neg = isinstance(tn.ast, ast.UnaryOp) and isinstance(tn.ast.op, ast.Not)
+        lab = "t" if neg else "f"  # the edge taken when the parsed value is NOT a mapping
+        starts = [s for s, l in cfg.succ[tn.id] if l == lab]
+        other = {s for s, l in cfg.succ[tn.id] if l not in (lab, "x")}
+        # statements only the not-a-mapping edge reaches (up to the join with the mapping edge)
+        reach_other: set[int] = set()
+        stack = list(other)
+        while stack:
+            x = stack.pop()
+            if x in reach_other:
+                continue
+            reach_other.add(x)
+            stack.extend(s for s, l in cfg.succ[x] if l != "x")
+        region: list[int] = []
+        stack = list(starts)
+        seen: set[int] = set()
+        while stack:
+            x = stack.pop()
+            if x in seen or x in reach_other:
+                continue
+            seen.add(x)
+            region.append(x)
+            stack.extend(s for s, l in cfg.succ[x] if l != "x")
+        bad = None
+        for x in region:
+            a = cfg.nodes[x].ast
+            if a is None:
+                if x == cfg.exit:
+                    bad = "leaves the function"
+                continue
+            if isinstance(a, (ast.Return, ast.Raise)):
+                bad = f"`{norm(a)[:60]}`"
+            elif any(isinstance(c, ast.Call) and isinstance(c.func, ast.Attribute) and c.func.attr in ("append", "extend") for c in ast.walk(a)):
+                bad = f"`{norm(a)[:60]}`"
+        run.instance("R09.8", vm.loc(tn.ast), "validate_frontmatter: the not-a-mapping path (taken by a blank block) adds no error and falls through to the per-field checks", ok=bad is None)
+        if bad:
+            run.violation("R09.8", vm, fi.qualname, tn.ast, f"the path of validate_frontmatter for a frontmatter that does not load as a mapping does {bad}: a blank frontmatter block (`---` / blank / `---`) loads as None and takes this path, while its canonical text has no frontmatter at all (the emitter drops blank blocks) and takes the `is None` branch - the document and its canonical text get different (code, field path) sets")
